@@ -93,18 +93,30 @@ theorem open_yields_recorded_type_and_write_list {isCid : String → Bool} {H : 
   OC.open_type_and_acl_are_the_recorded_ones s addr o a out hp h
 
 /-- **what Create returned is what every later Open returns**: on the same instance with any
-options; on any other instance that can fetch the manifest (not local-only); and a local-only open
-on an instance without local data is refused -/
+options; on any other instance that can fetch the manifest (not local-only: the database is then recorded
+there); and a local-only open on an instance without local data is refused -/
 theorem create_then_open_anywhere {isCid : String → Bool} {H : String → String → List String → String}
     (s s' : OC.St) (name ty : String) (o : OC.Opts) (a : Addr) (ty' : String) (wl : List String)
     (hc : isCid (OC.recHash H s name ty o) = true) (hs : Seg (OC.recHash H s name ty o))
     (h : OC.create isCid H s name ty o = (.ok (a, ty', wl), s')) :
     (∀ o', OC.open isCid H s' (print a) o' = (.ok (a, ty', wl), s')) ∧
     (∀ s2 o', OC.fetch s2.net a.root = OC.fetch s'.net a.root → ty' ∈ s2.types → o'.localOnly = false →
-      OC.open isCid H s2 (print a) o' = (.ok (a, ty', wl), s2)) ∧
+      OC.open isCid H s2 (print a) o' = (.ok (a, ty', wl), OC.addLocal s2 a)) ∧
     (∀ s2 o', a ∉ s2.local → o'.localOnly = true →
       OC.open isCid H s2 (print a) o' = (.error .notLocal, s2)) :=
   OC.create_then_open_same s s' name ty o a ty' wl hc hs h
+
+/-- **a database obtained through `Open` exists locally from then on** (after the `fix:` commit,
+finding F53): once a non-local-only `Open` of an address (in its printed spelling) has succeeded, a local-only `Open` of the same
+address on that instance succeeds with the same type and write list — and (`create_over_existing_is_refused`)
+a `Create` with the same inputs is refused unless overwrite is requested. Before the repair only
+`Create` recorded the database: the replica was "unknown", and could be created again over itself. -/
+theorem opened_database_exists_locally {isCid : String → Bool} {H : String → String → List String → String}
+    (s : OC.St) (addr : String) (o o' : OC.Opts) (a : Addr) (out : OC.Out)
+    (hp : parse isCid addr = some a) (hn : OC.Named isCid s a) (hca : parse isCid (print a) = some a)
+    (h : (OC.open isCid H s addr o).1 = .ok out) :
+    (OC.open isCid H (OC.open isCid H s addr o).2 addr o').1 = .ok out :=
+  OC.open_remote_then_localonly_succeeds s addr o o' a out hp hn hca h
 
 /-- the address Create returns is `determine` of the manifest hash of (name, type, write list) -/
 theorem create_address_is_determined_by_inputs {isCid : String → Bool} {H : String → String → List String → String}
